@@ -44,13 +44,25 @@ def net_soup(rng: random.Random, n: int):
         yield b"".join(rng.choice(NET_TOKENS) for _ in range(rng.randint(1, 7)))
 
 
+def context_urls() -> list[bytes]:
+    """URLs behind ' or ( whose closing character lies inside what the URL expression matches, with escapes on both sides."""
+    out = []
+    for opener, closer in ((b"'", b"'"), (b"(", b")"), (b"x('", b"'"), (b"=(", b")")):
+        for head in (b"http://a.example.com/p", b"https://u:p@evil-site.net:8080/%7Euser/x", b"ftp://1.2.3.4/%41%2fb", b"http://ex%61mple.com/"):
+            for tail in (b"", b"/more", b"%42c", b"/%7e", b"?q=%41", b"#%2F"):
+                out.append(b"call " + opener + head + closer + tail + b" end")
+                out.append(opener + head + b"%7E" + closer + tail)
+    out += [b"\x05http://a.example.com/%41", b"\x00\x01\x02\x03\x04\x05\x06\x07\x08\x1fhttp://example.com/%7Eabcdefghijklmnopqrstuvwxyz0123"]
+    return out
+
+
 def url_lattice(rng: random.Random, tier: str) -> list[bytes]:
     schemes = [b"http", b"https", b"ftp", b"HTTP", b"hTTps"]
     users = [b"", b"u@", b"u:@", b"u:p@", b":p@", b"@", b"us%65r:p%40ss@", b"a:b:c@"]
     hosts = [b"example.com", b"sub.evil-site.net", b"1.2.3.4", b"0x7f.1", b"010.0.0.1", b"3232235777", b"127.0.0.1", b"ex%61mple.com", b"EXAMPLE.COM",
              b"localhost", b"[::1]", b"example.invalidtld", b"0x7f.0x0.0.0x1", b"1.2.3", b"999.1.1.1"]
     ports = [b"", b":80", b":", b":65535"]
-    segs = [b".", b"..", b"a", b"", b"%2F", b"%41", b"%2e", b"b.c"]
+    segs = [b".", b"..", b"a", b"", b"%2F", b"%41", b"%2e", b"b.c", b"..."]
     paths = [b"", b"/"] + [b"/" + b"/".join(c) for n in (1, 2, 3) for c in itertools.product(segs, repeat=n)]
     if tier == "quick":
         paths = paths[:12] + rng.sample(paths[12:], 60)
@@ -70,7 +82,8 @@ def win_lattice(rng: random.Random, tier: str) -> list[bytes]:
     prefixes = [b"C:\\", b"c:", b"\\", b"", b"\\\\host.example.com\\share\\", b"\\\\1.2.3.4\\c$\\", b"\\\\010.1.1.1@SSL@8080\\dav\\",
                 b"\\\\.\\C:\\", b"\\\\?\\UNC\\srv.example.org\\share\\", b"\\\\?\\Volume{01234567-89ab-cdef-0123-456789abcdef}\\", b"\\\\?\\UNC\\10.0.0.300\\c$\\",
                 b"\\\\notadomain\\share\\"]
-    segs = [b".", b"..", b"dir", b"Program.Files", b"a-b", b"sub"]
+    # (a directory may carry the same text as the file name: the file-name child is the *last* component)
+    segs = [b".", b"..", b"dir", b"Program.Files", b"a-b", b"sub", b"file.exe", b"readme.txt.bak"]
     names = [b"file.exe", b"lib.DLL", b"readme.txt", b"noext", b".hidden", b"a.b.c", b"...."]
     out = []
     for pre in prefixes:
@@ -82,7 +95,7 @@ def win_lattice(rng: random.Random, tier: str) -> list[bytes]:
     return out
 
 
-def mini_pe(nsec: int, trailing: int, rng: random.Random) -> bytes:
+def mini_pe(nsec: int, trailing: int, rng: random.Random, order: str = "file", bss: bool = False) -> bytes:
     """A structurally valid PE file: DOS header, PE signature, COFF header, optional header, section table, raw data."""
     e_lfanew = 0x80
     dos = b"MZ" + bytes(0x3A) + struct.pack("<I", e_lfanew)
@@ -94,13 +107,19 @@ def mini_pe(nsec: int, trailing: int, rng: random.Random) -> bytes:
     opt = opt[:0x5C] + struct.pack("<I", 16) + opt[0x60:]                       # NumberOfRvaAndSizes
     hdr_len = e_lfanew + 4 + len(coff) + opt_size + 40 * nsec
     raw_start = (hdr_len + 0x1FF) // 0x200 * 0x200
-    secs = b""
+    entries = []
     body = b""
     for i in range(nsec):
         size = 0x200
         name = (b".s%d" % i).ljust(8, b"\0")
-        secs += name + struct.pack("<IIIIIIHHI", size, 0x1000 * (i + 1), size, raw_start + len(body), 0, 0, 0, 0, 0x60000020)
+        if bss and i == nsec - 1:      # an uninitialised-data section: no raw data at all
+            entries.append(b".bss\0\0\0\0" + struct.pack("<IIIIIIHHI", 0x1000, 0x1000 * (i + 1), 0, 0, 0, 0, 0, 0, 0xC0000080))
+            continue
+        entries.append(name + struct.pack("<IIIIIIHHI", size, 0x1000 * (i + 1), size, raw_start + len(body), 0, 0, 0, 0, 0x60000020))
         body += bytes(rng.randrange(1, 256) for _ in range(8)) + bytes(size - 8)
+    if order == "reverse":             # the table need not list the sections in file order
+        entries = entries[::-1] if not bss else entries[:-1][::-1] + entries[-1:]
+    secs = b"".join(entries)
     pe = dos + b"PE\0\0" + coff + opt + secs
     pe += bytes(raw_start - len(pe)) + body
     return pe + bytes(rng.randrange(256) for _ in range(trailing))
@@ -144,6 +163,10 @@ def instances(rng: random.Random, tier: str) -> list[dict]:
     for nsec in (1, 2, 3):
         for trailing in (0, 16):
             add("pe", mini_pe(nsec, 0, rng), trailing=trailing)
+    for nsec in (2, 3, 4):
+        add("pe", mini_pe(nsec, 0, rng, order="reverse"), trailing=8)
+        add("pe", mini_pe(nsec, 0, rng, bss=True), trailing=8)
+        add("pe", mini_pe(nsec, 0, rng, order="reverse", bss=True), trailing=0)
     return out
 
 
@@ -227,6 +250,7 @@ def run(prop: str, tier: str) -> int:
 
     inputs = list(drivers.repo_literals()) + list(net_soup(rng, 800 if tier == "quick" else 15000))
     inputs += list(drivers.token_soup(rng, 200 if tier == "quick" else 3000))
+    inputs += context_urls()
     if prop == "C11":
         for i, inst in enumerate(instances(rng, tier)):
             pre, suf = PRE[i % len(PRE)], SUF[(i // len(PRE)) % len(SUF)]
@@ -235,6 +259,12 @@ def run(prop: str, tier: str) -> int:
                 suf = bytes(rng.randrange(256) for _ in range(inst.pop("trailing", 0)))
                 pre = rng.choice([b"", b"junk \x00\x01", b"MZ not a pe "])
             try:
+                if inst["what"] in ("domain", "url", "email", "ip"):
+                    # history: the same indicator in other letter cases / surroundings was scanned before by this very scanner
+                    parts = blob.split(b".")
+                    if len(parts) > 1:      # first a spelling that one of the documented false-positive shapes rejects (name.Capitalised)
+                        md.scan(b" " + b".".join([parts[0].lower(), parts[1].capitalize()] + parts[2:]) + b" ")
+                    md.scan(b"obj." + blob.title() + b" = " + blob.upper() + b";")
                 tree = md.scan(pre + blob + suf)
                 found = found_at(tree)
             except Exception as e:  # noqa: BLE001
